@@ -215,8 +215,18 @@ var badRaw = []string{
 	"audit(123.456:-1): a=b", "audit 123.456:7): a=b", "audit(123 456:7): a=b", "audit(123.456 7): a=b",
 }
 
+// rawFor: the text of a raw push. Every seventh one carries something in front of the header (the rest of a log
+// line's "msg=", a node prefix, a stray byte): a parser may accept or refuse that, but a Push that reports
+// success has taken the record.
 func rawFor(id int, seq uint32) string {
-	return fmt.Sprintf("audit(1700000000.%03d:%d): nonce=%d", id%1000, seq, id)
+	return rawPrefix(id) + fmt.Sprintf("audit(1700000000.%03d:%d): nonce=%d", id%1000, seq, id)
+}
+
+func rawPrefix(id int) string {
+	if id%7 == 3 {
+		return []string{"msg=", "node=h ", "x", "type=SYSCALL msg="}[id/7%4]
+	}
+	return ""
 }
 
 // exec drives a real Reassembler.
